@@ -13,6 +13,7 @@ THEOREMS = [f"Httpcore.C03.{n}" for n in (
     "reject_writes_nothing", "head_written_first", "host_first", "others_in_order", "cl_body_exact", "cl_mismatch_detected",
     "chunked_roundtrip", "empty_chunk_writes_nothing", "defaults_only_if_missing", "h2_mapping", "h2_needs_host",
     "h2_validation_on", "h2_illegal_rejected", "h2_legal_handed", "h2_refuses_te", "h2_refuses_empty_path", "h2_refuses_custom_pseudo")] + [
+    "Httpcore.C03P.head_roundtrip", "Httpcore.C03P.accepted_head_roundtrip", "Httpcore.C03P.h11Request_wellformed"] + [
     f"Httpcore.BackendProps.{n}" for n in ("write_nothing_lost_or_reordered", "write_complete", "pieces_bounded", "source_write_loop")]
 TRUSTED = [
     "the sync back end's send loop (Backend.writeLoop): loop shape recognised from _backends/sync.py (Tie A) and lock-stepped on a scripted socket; "
@@ -28,8 +29,11 @@ LEVEL_TEXT = ("Lean 4 theorems about the writer model: a rejected head writes no
               "header mapping. Tied to the code by differential execution: wire bytes of 1-3 requests per keep-alive connection compared with the "
               "model byte for byte and parsed by an independent Python parser; HTTP/2 decoded by the real h2 server, send_headers calls recorded.")
 LEVEL_NOTE = ("Trusted: Lean kernel; hand-written model of h11's request validation and writers (validated by this run); h2/hpack framing. "
-              "Partial: a full parse-of-write round trip of the request head (request line + header lines) is established by the independent "
-              "Python parser on every generated request, not by a theorem; transparent re-sends are covered under C14.")
+              "The parse-of-write round trip of the request head is a theorem (C03P.accepted_head_roundtrip: for every request h11 accepts and "
+              "every continuation of the byte stream, the written head parses - request-line grammar + h11's own header regex - to exactly "
+              "that method, target and header list, Host first); its parser is lock-stepped against the independent Python parser on the wire "
+              "bytes of every generated request. The sync back end's partial-send loop is a theorem too (BackendProps). Partial: bodies are "
+              "covered by the chunked / Content-Length writer theorems, not by a parser round trip; transparent re-sends are covered under C14.")
 TECHNIQUE = "Lean 4 proof about writer model + independent parser + differential execution"
 DESIGN_REF = "§5 C03"
 
@@ -387,6 +391,7 @@ def run(ctx, driver):
                              (",".join(core.hexb(c) for c in r["chunks"]) if r["chunks"] else "-"))
     answers = driver.run(lines) if driver else [None] * len(lines)
     pos = 0
+    parse_inputs = []
     for gi, g in enumerate(groups):
         rt = "sync"
         outs = run_h1(g, rt)
@@ -395,6 +400,8 @@ def run(ctx, driver):
             ans = answers[pos]
             pos += 1
             evals += 1
+            if o["outcome"] == "ok":
+                parse_inputs.append(bytes(o["written"]))
             dist["outcome:" + o["outcome"]] += 1
             dist["content:" + r["kind"]] += 1
             distinct.add((r["method"], r["url"], r["target_ext"], tuple(r["headers"]), tuple(r["chunks"]), r["kind"]))
@@ -423,6 +430,31 @@ def run(ctx, driver):
                         disagreements.append(dict(payload, model_written=repr(mw)[:600], model_err=me))
             if len(samples) < 3 and r["kind"] == "iter" and len(r["chunks"]) > 2 and o["outcome"] == "ok":
                 samples.append({"request": {k: repr(v)[:120] for k, v in r.items()}, "written": repr(o["written"])[:300], "model": (ans or "")[:200]})
+    # ---------------- the head as a server reads it (Lean parser of C03P.head_roundtrip vs the independent Python parser) --------
+    if driver:
+        wires = sorted({w for w in parse_inputs if w})[:2000]
+        pans = driver.run(["h1parse " + core.hexb(w) for w in wires])
+        for w, a in zip(wires, pans):
+            i = w.find(b"\r\n\r\n")
+            lines0 = w[:i].split(b"\r\n") if i >= 0 else []
+            parts = lines0[0].split(b" ") if lines0 else []
+            py = None
+            if i >= 0 and len(parts) == 3 and parts[2] == b"HTTP/1.1":
+                hs = []
+                for l in lines0[1:]:
+                    n_, sep, v_ = l.partition(b":")
+                    hs.append((n_, v_.strip(b" \t")))
+                py = (parts[0], parts[1], hs, len(w) - i - 4)
+            dist["head-parse:" + ("none" if a == "none" else "ok")] += 1
+            if a == "none" or py is None:
+                ok = (a == "none") == (py is None)
+            else:
+                d = core.kv(a)
+                mh = [] if d["headers"] == "-" else [tuple(core.unhex(x) for x in item.split(":")) for item in d["headers"].split(",")]
+                ok = (core.unhex(d["method"]), core.unhex(d["target"]), mh, int(d["restlen"])) == py
+            evals += 1
+            if not ok and len(disagreements) < 10:
+                disagreements.append({"family": "head-parse", "wire": repr(w)[:400], "lean": a[:400], "python": repr(py)[:400]})
     # ---------------- HTTP/2 -------------------------------------------------------------------
     n2 = 300 if ctx.quick else 4000
     groups2 = [[gen_request(rng, malformed_rate=0.1) for _ in range(rng.choice([1, 2, 3]))] for _ in range(n2)]
